@@ -66,3 +66,10 @@ Example C02_nonvacuous :
   strip (depth n) n = [n] /\ wf n = true /\ nf n = true /\ canonical (depth n) n /\
   read (pretty (depth n) 4 n) = Some [n].
 Proof. vm_compute. repeat split; repeat constructor. Qed.
+
+(* the line break a parser drops after a pre / textarea start tag (a carriage return, then a line feed) is
+   compensated exactly: after the drop, the content is the content *)
+Theorem C02_first_line_break_kept :
+  forall s, parser_drop ((if starts_break s then nl else []) ++ s) = s.
+Proof. exact first_break_kept. Qed.
+Print Assumptions C02_first_line_break_kept.
